@@ -150,6 +150,9 @@ func runState(focus string) func(s *simrt.Sim) {
 			return n
 		}
 		nops := tp.Range(2, 14, "n_ops")
+		if focus == "C36" {
+			nops = tp.Range(6, 24, "n_ops36") // dependency chains need a few streams, closes and re-prioritisations
+		}
 		for i := 0; i < nops && !e.readerDone; i++ {
 			var op int
 			if focus == "C36" {
@@ -291,6 +294,13 @@ func (r *stateRun) genPrio(self uint32) *xh2.PriorityParam {
 		dep = 0
 	case 1:
 		dep = self // a stream depending on itself
+	case 2:
+		// a chain: depend on the stream opened just before (or, for the oldest, on the newest)
+		if self >= 3 {
+			dep = self - 2
+		} else if r.nextID >= 3 {
+			dep = r.nextID - 2
+		}
 	default:
 		dep = uint32(1 + 2*tp.Draw(int(r.nextID/2)+2, "prio.dep_id")) // any id: open, closed or idle
 	}
